@@ -1,13 +1,23 @@
 import DepsDev.Props.C03b
 import DepsDev.Proofs.C03L3Span
-import DepsDev.Proofs.C03L3NpmGe
-import DepsDev.Proofs.C03L3NpmGt
-import DepsDev.Proofs.C03L3NpmLt
-import DepsDev.Proofs.C03L3NpmLe
-import DepsDev.Proofs.C03L3NpmEq
-import DepsDev.Proofs.C03L3NpmNone
-import DepsDev.Proofs.C03L3NpmCaret
-import DepsDev.Proofs.C03L3NpmTilde
+import DepsDev.Proofs.C03L3NpmGeP
+import DepsDev.Proofs.C03L3NpmGtP
+import DepsDev.Proofs.C03L3NpmLtP
+import DepsDev.Proofs.C03L3NpmLeP
+import DepsDev.Proofs.C03L3NpmEqP
+import DepsDev.Proofs.C03L3NpmNoneP
+import DepsDev.Proofs.C03L3NpmCaretP
+import DepsDev.Proofs.C03L3NpmTildeP
+import DepsDev.Proofs.C03L3InclGeP
+import DepsDev.Proofs.C03L3InclGtP
+import DepsDev.Proofs.C03L3InclLtP
+import DepsDev.Proofs.C03L3InclLeP
+import DepsDev.Proofs.C03L3InclEqP
+import DepsDev.Proofs.C03L3InclNoneP
+import DepsDev.Proofs.C03L3InclCaretP
+import DepsDev.Proofs.C03L3InclTildeP
+import DepsDev.Proofs.C03L3InvNpm
+import DepsDev.Proofs.C03L3And
 
 /-!
 # C03, layer L3 — npm prerelease candidates
@@ -24,15 +34,22 @@ excludes numeric identifiers beyond int64). The classes that remain hypotheses a
 recorded findings `pre000`/`lt0pre`, `gt-succ-pre`, `lt-partial-pre` (and `signed-ident` through
 `PreAgree`). `npm_single_tokens_partial` carries it through `ParseConstraint`/`Match` on the token level.
 
-**Proved, AND lists, model side** (`npm_and_list_model`): for any AND list of L1-domain comparators
-and ANY candidate the parser's set is one span `r` with `r ∋ v ⟺ every comparator's span ∋ v`
-(interval sense, no seam condition), whose bounds are bounds of the comparators' spans, and
-`matchVersion` in release mode is `r ∋ v` and, for a prerelease candidate, "a bound of `r` is flagged
-prerelease and has the candidate's numbers" (`modeHas`).
+**Proved, AND lists** (`npm_and_pre_partial`, `npm_alt_partial`, `npm_alt_tokens_partial`): for every
+AND list (one `||` alternative) of L1-domain comparators and every candidate outside the same classes,
+with `PreAgree` for every comparator that has a prerelease tag, matching against the set the parser
+computes is `semver.satisfies` — node's tests of all comparators AND its rule "some comparator of the
+list with the candidate's `[major, minor, patch]` has a prerelease". The library applies its rule to
+the two *effective* bounds of the intersection only; the proof shows the two rules agree:
+the AND fold keeps a single span whose interval meaning is the intersection for every candidate
+(`npm_and_list_model`, no seam condition), whose lower bound is the greatest lower bound among the
+comparators' and whose upper bound the least upper bound (`andFold_struct`); a bound squeezed between a
+flagged bound with the candidate's numbers and the candidate has the candidate's numbers and a tag,
+hence (`invNpm_all`) is itself flagged with three numbers.
 
-**Not proved**: that this admission rule on the *effective* bounds of an AND list of two or more
-comparators agrees with node's rule on *all* comparators (outside the classes); OR lists with
-prerelease candidates (C09's successor-seam finding applies); Cargo prerelease candidates.
+**Not proved**: OR lists (two or more `||` alternatives) with prerelease candidates — `canon` may merge
+spans of different alternatives and thereby change the bounds the admission rule looks at (C09's
+successor-seam finding is about the same merge); Cargo prerelease candidates (the crate's rule is not
+interval membership: F-C03-cargo-pre-partial).
 -/
 namespace DepsDev.Props.C03
 
@@ -187,5 +204,151 @@ theorem ex_pre_string :
   have e : NpmRange.satisfies [.comps [ex_pre_c]] ex_pre_x = true := by decide
   rw [e] at h
   exact h
+
+/-! ## AND lists, prerelease candidates, against the reference -/
+
+theorem l1pNpm_all (op : Op) : L1PNpm op := by
+  cases op
+  · exact l1p_npm_none
+  · exact l1p_npm_eq
+  · exact l1p_npm_gt
+  · exact l1p_npm_ge
+  · exact l1p_npm_lt
+  · exact l1p_npm_le
+  · exact l1p_npm_caret
+  · exact l1p_npm_tilde
+
+/-- The per-comparator facts `and_pre_spec` needs, for an L1-domain comparator and a prerelease
+candidate outside the classes. -/
+theorem compL3_of (c : Comparator) (hc : L1Dom c) (M m p : Nat) (i : Ident) (l : List Ident)
+    (hM : M < B∞) (hm : m < B∞) (hp : p < B∞)
+    (h000 : NpmRange.pre000 ⟨M, m, p, i :: l⟩ = false)
+    (hgs : NpmRange.gtSuccPre [.comps [c]] ⟨M, m, p, i :: l⟩ = false)
+    (hlp : NpmRange.ltPartialPre [.comps [c]] ⟨M, m, p, i :: l⟩ = false)
+    (hpa : c.p.pre ≠ [] → PreAgree .npm (i :: l) c.p.pre) :
+    ∃ sp, CompL3 ⟨M, m, p, i :: l⟩ c sp := by
+  obtain ⟨sp, e, g, -⟩ := npm_compSpec c hc ⟨0, 0, 0, []⟩ ⟨rfl, by decide, by decide, by decide⟩
+  obtain ⟨op, nums, pre⟩ := c
+  have e' : opVersionToSpan (tokOf op) (embedPartial .npm ⟨nums, pre⟩) = .ok sp := e
+  have hvg : VG .npm (embedVer .npm ⟨M, m, p, i :: l⟩) := ⟨rfl, rfl⟩
+  refine ⟨sp, e, g, invNpm_all op nums hc.shape pre hc.pre sp e', ?_, ?_⟩
+  · have h := l1pNpm_all op nums hc.shape pre hc.pre hc.le0 M m p i l hM hm hp hpa h000 hgs hlp
+    rw [e'] at h
+    have h' : sp.contains (embedVer .npm ⟨M, m, p, i :: l⟩) true =
+        .ok ((desugarComparator ⟨op, ⟨nums, pre⟩⟩).all (·.test ⟨M, m, p, i :: l⟩)) := h
+    rw [contains_incl g.1 hvg] at h'
+    injection h' with h'
+  · have h := l3Npm_all op nums hc.shape pre hc.pre hc.le0 M m p i l hM hm hp hpa h000 hgs hlp
+    rw [e'] at h
+    have h' : sp.contains (embedVer .npm ⟨M, m, p, i :: l⟩) false =
+        .ok (NpmRange.satisfies [.comps [⟨op, ⟨nums, pre⟩⟩]] ⟨M, m, p, i :: l⟩) := h
+    rw [contains_mode g.1 hvg (by decide)] at h'
+    injection h' with h'
+    rw [h', satisfies_alt_pre [⟨op, ⟨nums, pre⟩⟩] ⟨M, m, p, i :: l⟩ (by simp) h000]
+    simp
+
+theorem any_false_of {α} {l : List α} {f : α → Bool} (h : l.any f = false) : ∀ a ∈ l, f a = false := by
+  intro a ha
+  cases hf : f a
+  · rfl
+  · have : l.any f = true := List.any_eq_true.mpr ⟨a, ha, hf⟩
+    rw [h] at this; cases this
+
+/-- **L3, npm, AND lists** (partial theorem). For every AND list of L1-domain comparators and every
+prerelease candidate with numbers below `infinity`, outside the finding classes `pre000`/`lt0pre`,
+`gt-succ-pre`, `lt-partial-pre` and with the identifier orders agreeing (`PreAgree`, for every
+comparator with a prerelease tag): matching against the set the parser computes is
+`semver.satisfies` — node's tests of all comparators and its admission rule "some comparator with
+the candidate's `[major, minor, patch]` has a prerelease". -/
+theorem npm_and_pre_partial (cs : List Comparator) (hne : cs ≠ []) (hdom : ∀ c ∈ cs, L1Dom c) (x : SemVerAst)
+    (hb : CandB x) (hxp : x.pre ≠ []) (hcls : NpmRange.classes [.comps cs] x = [])
+    (hpa : ∀ c ∈ cs, c.p.pre ≠ [] → PreAgree .npm x.pre c.p.pre) :
+    ∃ S, astSet .npm [cs] = .ok S ∧
+      S.matchVersion (embedVer .npm x) false = .ok (NpmRange.satisfies [.comps cs] x) := by
+  obtain ⟨h1, h2, h3⟩ := classes_nil hcls
+  obtain ⟨M, m, p, xpre⟩ := x
+  cases xpre with
+  | nil => exact absurd rfl hxp
+  | cons i l =>
+    have hgs : ∀ c ∈ cs, NpmRange.gtSuccPre [.comps [c]] ⟨M, m, p, i :: l⟩ = false := by
+      intro c hc
+      simp only [NpmRange.gtSuccPre, NpmRange.allComps, List.flatMap_cons, List.flatMap_nil, List.append_nil,
+        List.isEmpty_cons, Bool.not_false, Bool.true_and] at h2 ⊢
+      have := any_false_of h2 c hc
+      simpa using this
+    have hlp : ∀ c ∈ cs, NpmRange.ltPartialPre [.comps [c]] ⟨M, m, p, i :: l⟩ = false := by
+      intro c hc
+      simp only [NpmRange.ltPartialPre, NpmRange.allComps, List.flatMap_cons, List.flatMap_nil, List.append_nil,
+        List.isEmpty_cons, Bool.not_false, Bool.true_and] at h3 ⊢
+      have := any_false_of h3 c hc
+      simpa using this
+    obtain ⟨r, e, hm⟩ := and_pre_spec cs hne ⟨M, m, p, i :: l⟩ hb.major hb.minor hb.patch (by simp) h1
+      (fun c hc => compL3_of c (hdom c hc) M m p i l hb.major hb.minor hb.patch h1 (hgs c hc) (hlp c hc) (hpa c hc))
+    exact ⟨_, e, by rw [hm, satisfies_alt_pre cs ⟨M, m, p, i :: l⟩ (by simp) h1]⟩
+
+/-- **npm, one alternative, any candidate** (partial theorem): release candidates by layer L2,
+prerelease candidates by layer L3. -/
+theorem npm_alt_partial (cs : List Comparator) (hne : cs ≠ []) (hdom : ∀ c ∈ cs, L1Dom c) (x : SemVerAst)
+    (hb : CandB x) (hcls : NpmRange.classes [.comps cs] x = [])
+    (hpa : ∀ c ∈ cs, c.p.pre ≠ [] → x.pre ≠ [] → PreAgree .npm x.pre c.p.pre) :
+    ∃ S, astSet .npm [cs] = .ok S ∧
+      S.matchVersion (embedVer .npm x) false = .ok (NpmRange.satisfies [.comps cs] x) := by
+  by_cases hxp : x.pre = []
+  · obtain ⟨S, e, -, -, hm⟩ := npm_release_partial [cs] (by simp) (by simpa using hne)
+      (by intro cs' h c hc; rw [List.mem_singleton] at h; subst h; exact hdom c hc) x
+      ⟨hxp, hb.major, hb.minor, hb.patch⟩
+    exact ⟨S, e, hm⟩
+  · exact npm_and_pre_partial cs hne hdom x hb hxp hcls (fun c hc hp => hpa c hc hp hxp)
+
+/-- **npm, one alternative, any candidate, token level** (partial theorem): through `ParseConstraint`
+and `Match`. -/
+theorem npm_alt_tokens_partial (cs : List Comparator) (hne : cs ≠ []) (hdom : ∀ c ∈ cs, L1Dom c) (x : SemVerAst)
+    (hb : CandB x) (hcls : NpmRange.classes [.comps cs] x = [])
+    (hpa : ∀ c ∈ cs, c.p.pre ≠ [] → x.pre ≠ [] → PreAgree .npm x.pre c.p.pre) (req cand : Bytes)
+    (hreq : Bytes.trimSpace req ≠ []) (hlex : LexOr .npm [cs] (Bytes.trimSpace req))
+    (hcand : parse .npm cand = .ok (embedVer .npm x)) :
+    Agree .npm req cand (NpmRange.satisfies [.comps cs] x) ∧ NotRejected .npm req := by
+  obtain ⟨S, hS, hm⟩ := npm_alt_partial cs hne hdom x hb hcls hpa
+  obtain ⟨c, hc, hset, hsys, -⟩ := parseConstraint_tokens .npm (Or.inl rfl) [cs] req hreq hlex S hS
+  refine ⟨?_, by unfold NotRejected; rw [hc]; rfl⟩
+  intro c' hc'
+  rw [hc] at hc'
+  injection hc' with hc'
+  subst hc'
+  rw [matchStr_of_parse (Or.inl rfl) hsys hcand, hset, hm]
+
+/-- `>=1.2.3-rc.1 <1.3.0` against `1.2.3-rc.2` (admitted through the first comparator) and against
+`1.2.9-rc.2` (inside the interval, not admitted): string level. -/
+def ex_and : List Comparator :=
+  [⟨.ge, ⟨[.n 1, .n 2, .n 3], [.alnum "rc", .num 1]⟩⟩, ⟨.lt, ⟨[.n 1, .n 3, .n 0], []⟩⟩]
+
+theorem ex_and_dom : ∀ c ∈ ex_and, L1Dom c := by
+  intro c hc
+  simp only [ex_and, List.mem_cons, List.not_mem_nil, or_false] at hc
+  rcases hc with rfl | rfl
+  · exact ⟨TShape.n3 1 2 3 (by decide) (by decide) (by decide), by simp, by simp⟩
+  · exact ⟨TShape.n3 1 3 0 (by decide) (by decide) (by decide), by simp, by simp⟩
+
+theorem ex_and_string :
+    Agree .npm (bs ">=1.2.3-rc.1 <1.3.0") (bs "1.2.3-rc.2") true ∧
+    Agree .npm (bs ">=1.2.3-rc.1 <1.3.0") (bs "1.2.9-rc.2") false := by
+  have pa : ∀ x : SemVerAst, x.pre = [.alnum "rc", .num 2] →
+      ∀ c ∈ ex_and, c.p.pre ≠ [] → x.pre ≠ [] → PreAgree .npm x.pre c.p.pre := by
+    intro x hx c hc hp _
+    simp only [ex_and, List.mem_cons, List.not_mem_nil, or_false] at hc
+    rcases hc with rfl | rfl
+    · rw [hx]; decide +kernel
+    · exact absurd rfl hp
+  have h1 := (npm_alt_tokens_partial ex_and (by decide) ex_and_dom ⟨1, 2, 3, [.alnum "rc", .num 2]⟩
+    ⟨by decide, by decide, by decide⟩ (by decide) (pa _ rfl) (bs ">=1.2.3-rc.1 <1.3.0") (bs "1.2.3-rc.2")
+    (by decide +kernel) (lexOr_of_b (by decide +kernel)) (by decide +kernel)).1
+  have h2 := (npm_alt_tokens_partial ex_and (by decide) ex_and_dom ⟨1, 2, 9, [.alnum "rc", .num 2]⟩
+    ⟨by decide, by decide, by decide⟩ (by decide) (pa _ rfl) (bs ">=1.2.3-rc.1 <1.3.0") (bs "1.2.9-rc.2")
+    (by decide +kernel) (lexOr_of_b (by decide +kernel)) (by decide +kernel)).1
+  have e1 : NpmRange.satisfies [.comps ex_and] ⟨1, 2, 3, [.alnum "rc", .num 2]⟩ = true := by decide
+  have e2 : NpmRange.satisfies [.comps ex_and] ⟨1, 2, 9, [.alnum "rc", .num 2]⟩ = false := by decide
+  rw [e1] at h1
+  rw [e2] at h2
+  exact ⟨h1, h2⟩
 
 end DepsDev.Props.C03
